@@ -51,6 +51,12 @@ CHECKS["C12"] = dict(technique="definitional state-dump monitor: parent dump (bu
 CHECKS["C18"] = dict(technique="definitional N-invariance monitor on hooked state: `save` JSON of the Shell struct (scope / frame / virtual-fd counts), FUNCNAME depth, job table, external fdcount of /proc/<pid>/fd and zombie children, iteration output hashes",
    text="58 fault leaves (missing files, unwritable targets, unknown commands, commands named by a path that cannot be spawned with and without temporary assignments, bad substitutions, readonly targets, return/break/continue out of nested constructs, failing redirect on a function definition, errors in $( ) and pipelines, exec open/close pairs, process substitutions, background jobs) each alone and inside random bodies of 1-4 statements mixed with grammar-generated control flow are run 40 (quick) / 300 and 1500 (thorough) times in one brush process; the internal stack depths sampled after iteration 2 and after N must be equal, no zombies, no job-table growth, OS descriptors must not grow with N, and iteration N must print what iteration 2 printed.",
    note="iteration 1 is warm-up; OS fd count uses a growth criterion (pidfds jitter); bodies that end the session are counted separately and give no statement; relies on the experimental `save` builtin (enabled in the hooks build) as the state dump", ref="5 C18")
+CHECKS["C11"] = dict(technique="conservation monitor (external generator of unique lines -> filter stages -> verifying sink reporting through an O_APPEND side log), bash reference for statuses, /proc quiescence witness for hang verdicts, schedule perturbation through verif-hooks pause points and CPU pinning",
+   text="Scripts mixing pipelines of 1-3 filter stages (external, function, brace group, subshell, while-read loop) with payloads on both sides of the 64 KiB pipe capacity up to 1 MiB, chunk sizes and delays, early-exit consumers (writer must end with 141), command substitutions (external and in-process producers, nested to depth 3, with statuses, directly after commands with equal/different status) and read-then-reader on files, pipes and here-strings are executed by the real brush under pause-point schedules; the sink verifies byte-for-byte what arrived, `$?`/PIPESTATUS/captured lengths are compared with bash, and a run that exceeds the bound while bash finished is a hang only with the whole process tree asleep and CPU time flat.",
+   note="in-process non-final stages and in-process producers inside $( ) are limited to payloads below one pipe buffer (open finding C11-F1: inline execution deadlocks above 64 KiB, deterministically for pipelines, intermittently for substitutions); a change that only makes that deadlock more frequent cannot be told apart from the finding", ref="5 C11")
+CHECKS["C17"] = dict(technique="offline checker over an append-only event log (single-write O_APPEND lines by an external helper = happens-before order) + hook event log (job.add ids vs live set); schedules varied by durations, CPU pinning, delivery mode and pause points",
+   text="Job sets of 1-8 background jobs of 7 kinds with durations chosen so that every finishing permutation of sets of 2-4 occurs, launched from top level, functions and loops, interleaved with foreground markers, `jobs` listings, repeated waits and later launches, delivered as file, -c and stdin, pinned to 1, 2 or all CPUs, with pause points delaying job-task start, wait_all and poll. The recorded log must show every `done` of a job launched before a `wait` ahead of that wait's WAITED line, each job exactly once, foreground markers in program order; every `jobs` listing and every job.add hook event must show distinct numbers for live jobs.",
+   note="`wait <pid>`, `wait -n`, `$!` are outside the statement; C17 verdicts depend on scheduling, replay re-runs the check with the same seed", ref="5 C17")
 NA = {}
 
 def main():
